@@ -94,7 +94,7 @@ def run(pid, tier, seed):
     tbl = classes.ClassTable()
     try:
         mod, _ = pd.load("c03trip_%d" % (seed % 1000), tripwires.SOURCE)
-        reps = range(3 if quick else 12)
+        reps = range(3 if quick else 80)
         for name, wl in WORKLOADS:
             for i in reps:
                 base = execute(mod, wl, i, False, 0, FAULTS[0], tbl)
@@ -125,7 +125,7 @@ def run(pid, tier, seed):
         # the model's probe list contains no unsafe operation for any generated value (and the journal above was empty)
         from .. import values
         vgen = values.Gen(tbl, chk.rng)
-        reqs = [("probes", vgen.value(3)) for _ in range(200 if quick else 2000)]
+        reqs = [("probes", vgen.value(3)) for _ in range(200 if quick else 30000)]
         for g in drv.ask_many(reqs):
             chk.rel("corr.C03.probes", g[1] == "0", {"model": sexp.dumps(g)})
         chk.sample({"workloads": [w for w, _ in WORKLOADS], "faults": [f[0] for f in FAULTS]})
